@@ -46,7 +46,7 @@ PLAN = {
     'C09': {'quick': [('nest', 500), ('fwd3', 500), ('fwd', 300), ('firstuse', None), ('errors', 100), ('redispatch', None)],
             'thorough': [('nest', 12000), ('fwd3', None), ('fwd', 6000), ('firstuse', None), ('errors', None), ('await_pos', None), ('redispatch', None)]},
     'C10': {'quick': [('timeout', None), ('deep_timeout', None), ('timeout_rand', 400), ('par_timeout', None), ('timeout_par_rand', 200), ('timeout_stray', None), ('cancel_cleanup', None), ('fwd_timeout', 200), ('retry_handler', None)],
-            'thorough': [('timeout', None), ('deep_timeout', None), ('timeout_rand', 12000), ('par_timeout', None), ('timeout_par_rand', 6000), ('timeout_stray', None), ('cancel_cleanup', None), ('fwd_timeout', 3000), ('retry_handler', None)]},
+            'thorough': [('timeout', None), ('deep_timeout', None), ('timeout_rand', 5000), ('par_timeout', None), ('timeout_par_rand', 3000), ('timeout_stray', None), ('cancel_cleanup', None), ('fwd_timeout', 1500), ('retry_handler', None)]},
     'C11': {'quick': [('errors', None), ('errors_par', None), ('nest', 300)],
             'thorough': [('errors', None), ('errors_par', None), ('nest', 10000), ('timeout_rand', 2000)]},
     'C13': {'quick': [('hist', None), ('hist_rand', 400), ('capacity', 24), ('hist_fwd', None), ('hist_nohandler', None)],
